@@ -34,11 +34,20 @@ type CheckpointHandle struct {
 // Add creates a new checkpoint, taking ownership of the LevelList reference.
 // Checkpoint is responsible for the LevelList and WAL cleanup when destroyed.
 func (cl *CheckpointList) Add(ckptID uint64, ll *sst.LevelList, w *wal.Writer, lastSeqNum uint64) {
+	// Index the table files so that IncludesTable also answers for checkpoints
+	// created by this instance, not only for those loaded from a document.
+	tableURIset := make(map[string]struct{})
+	for level := range ll.DescendLevels() {
+		for t := range level.AllTables() {
+			tableURIset[t.URI()] = struct{}{}
+		}
+	}
 	cp := &Checkpoint{
-		ID:         ckptID,
-		Levels:     ll,
-		WALs:       []wal.Handle{w.Handle(ll.LatestSeqNum)},
-		LastSeqNum: lastSeqNum,
+		ID:          ckptID,
+		Levels:      ll,
+		WALs:        []wal.Handle{w.Handle(ll.LatestSeqNum)},
+		tableURIset: tableURIset,
+		LastSeqNum:  lastSeqNum,
 	}
 	cl.checkpoints = append(cl.checkpoints, cp)
 }
